@@ -927,6 +927,15 @@ class ImpTranslator(FullTranslator):
             return self.jblock([s['inner'][0], s['inner'][1]] + rest, env, fn, mode, tail)
         if k == 'IfStmt':
             return self.jif(s, rest, env, fn, mode, tail)
+        if k == '_EndSwitch':
+            return self.jblock(rest, env, fn, mode, tail)
+        if k == 'BreakStmt':
+            for i_, x in enumerate(rest):
+                if x is END_SWITCH:
+                    return self.jblock(rest[i_ + 1:], env, fn, mode, tail)
+            self.bad(s, 'break outside a switch (break out of loops is not translated)')
+        if k == 'SwitchStmt':
+            return self.jswitch(s, rest, env, fn, mode, tail)
         if k in ('WhileStmt', 'ForStmt', 'DoStmt', '_For'):
             return self.jloop_stmt(s, rest, env, fn, mode, tail)
         hoist = self.find_hoist(s, env)
@@ -1147,6 +1156,46 @@ class ImpTranslator(FullTranslator):
             env.fx.fuel = True
         args = (' fuel' if fuel else '') + ' buf' + ''.join(' ' + env.vars[rid][0] for rid, nm, ty in params)
         return ('ret', it.full + args), ('ret', '%s_defined%s' % (it.full, args))
+
+    def jswitch(self, s, rest, env, fn, mode, tail):
+        """`switch` in join style: an `if` chain on `CxxSem.eq sw k`; every arm runs from its label (fall-through included)
+        to its `break` and then through the statements after the switch (these are translated once per arm)"""
+        cond, flat, labels = self.switch_parts(s)
+        c = self.ex(cond, env)
+        if c.ty.kind != 'int':
+            self.bad(s, 'switch over %r' % c.ty)
+        sw = env.fresh('sw')
+        groups, default = [], None
+        for v, p_ in labels:
+            if v == 'default':
+                default = p_
+            elif groups and groups[-1][0] == p_:
+                groups[-1][1].append(v)
+            else:
+                groups.append((p_, [v]))
+        if default is not None:
+            groups = [g for g in groups if g[0] != default]
+        after = [END_SWITCH] + rest
+        if default is not None:
+            val, dfd = self.jblock(flat[default:] + after, env.copy(), fn, mode, tail)
+        else:
+            val, dfd = self.jblock(list(rest), env.copy(), fn, mode, tail)
+        alltrue = is_true_blk(dfd)
+        arms = []
+        for p_, vs in reversed(groups):
+            test = ' || '.join('%seq %s %s' % (SEM, sw, ('(%d)' % x) if x < 0 else str(x)) for x in vs)
+            tv, td = self.jblock(flat[p_:] + after, env.copy(), fn, mode, tail)
+            alltrue = alltrue and is_true_blk(td)
+            arms.append((test, tv, td))
+        for test, tv, td in arms:
+            val = ('if', test, tv, val)
+            dfd = ('if', test, td, dfd)
+        lt = self.lean_ty(c.ty, s)
+        val = ('lett', sw, lt, c.term, val)
+        dfd = ('ret', 'true') if alltrue else ('lett', sw, lt, c.term, dfd)
+        if c.defd:
+            dfd = ('and', c.defd, dfd)
+        return val, dfd
 
     def tree_pure(self, t):
         if t[0] == 'jnext':
